@@ -472,7 +472,8 @@ Tamper(T, hm, sp) ==
     /\ wire' = ApplyH(ver, ApplyT(ver, ev, T, sp), hm)
     /\ out' = [kind |-> "tampered", T |-> T, hm |-> hm, sp |-> sp,
                kout |-> IF "con_out_chg" \in T THEN Pick(OutKeys(ver, ev)) ELSE "",
-               kin |-> IF "con_in" \in T THEN Pick(InKeys(ver, ev)) ELSE ""]
+               kin |-> IF "con_in" \in T THEN Pick(InKeys(ver, ev)) ELSE "",
+               vk |-> "", vs |-> "", vpos |-> ""]
     /\ phase' = "parse"
     /\ UNCHANGED <<ver, proto, built, ev, sigs, redacted, ids, hist>>
 
@@ -484,6 +485,7 @@ ParseSingle ==
           /\ redacted' = r.red
           /\ Log("TRU", out.hm, r.e, r.red)
           /\ out' = [kind |-> "tamper", T |-> out.T, hm |-> out.hm, sp |-> out.sp, kout |-> out.kout, kin |-> out.kin,
+                     vk |-> out.vk, vs |-> out.vs, vpos |-> out.vpos,
                      red |-> r.red,
                      noop |-> RedactV(ver, Received(ver, wire)) = Received(ver, wire),   \* nothing to redact
                      topk |-> DOMAIN r.e.top, conk |-> DOMAIN r.e.con, tpik |-> DOMAIN r.e.tpi.keys,
@@ -523,8 +525,7 @@ TamperSpelt ==
     /\ phase = "tamper" /\ Len(hist) = 0 /\ proto.lim = "none" /\ ver \in WireVersions
     /\ \E T \in SpeltSets(ver), sp \in WireSpells \ {"plain"}, hm \in {"keep", "garbage", "rehash"} :
         /\ ((hm = "rehash") => (T \cap HashedElemsSp(ver, sp) # {})) = TRUE
-        \* event_id is on the keep list (of every version): "Event_ID" differs from a protected key only in case, and
-        \* what the library makes of such a key is the open C05 finding (it also reaches the event ID) - not enumerated
+        \* "Event_ID": enumerated with the variants of the protected names (TamperVariant), for every room version
         /\ ((sp = "case") => ("event_id" \notin T)) = TRUE
         /\ Tamper(T, hm, sp)
 
@@ -612,7 +613,33 @@ ParseDuplicated ==
     /\ phase' = "done"
     /\ UNCHANGED <<ver, proto, built, sigs, wire>>
 
-TamperNext == TamperPlain \/ TamperSpelt \/ TamperDup
+\* --- a name that differs from a name the event format knows only in letter case (class: unusual spellings) ---------
+\* Member names are compared code point by code point: "Sender", "TYPE", "Event_ID" - or "\u017Fender", whose first
+\* letter (long s) case-folds to s - are NOT sender / type / event_id but unknown top-level keys: covered by the
+\* content hash, on no keep list, read by no accessor.  One such member is added next to the genuine one (before or
+\* after it; where the event has no such member it stands alone), the hash kept (so it fails: redacted form, the
+\* extra member gone, ID and signatures the original's) or the forger's (so it matches: the event intact, the extra
+\* member in it as the unknown key it is, every accessor reporting the genuine members).  In the model this IS the
+\* tampering {top_add} under another name, so every C04 invariant applies as it stands; the names are tokens
+\* (name ~ kind), the harness writes the letters.
+ProtectedNames == TopKeepOld \cup {"redacts"}         \* every name some keep list has, and redacts (an accessor reads it)
+VariantKinds == {"case", "fold"}                      \* other letter case; a non-ASCII letter that folds to the ASCII one
+Foldable == {"sender", "state_key", "hashes", "signatures", "prev_events", "prev_state", "auth_events",
+             "origin_server_ts", "membership", "redacts"}        \* names with an s (U+017F) or a k (U+212A)
+VariantName(k, vs) == k \o "~" \o vs
+TamperVariant ==
+    /\ phase = "tamper" /\ Len(hist) = 0 /\ proto.lim = "none" /\ ver \in WireVersions
+    /\ \E i \in DupShapes : proto.con = Shape(i).con /\ proto.type = Shape(i).type /\ proto.sk = Shape(i).sk
+    /\ \E k \in ProtectedNames, vs \in VariantKinds, pos \in {"before", "after"}, hm \in {"keep", "rehash"} :
+        /\ (vs = "fold" => k \in Foldable)
+        /\ (k \notin DOMAIN ev.top => pos = "before")                 \* no genuine member to stand next to
+        /\ wire' = ApplyH(ver, SetTop(ev, VariantName(k, vs), "tampered"), hm)
+        /\ out' = [kind |-> "tampered", T |-> {"top_add"}, hm |-> hm, sp |-> "plain", kout |-> "", kin |-> "",
+                   vk |-> k, vs |-> vs, vpos |-> pos]
+        /\ phase' = "parse"
+        /\ UNCHANGED <<ver, proto, built, ev, sigs, redacted, ids, hist>>
+
+TamperNext == TamperPlain \/ TamperSpelt \/ TamperDup \/ TamperVariant
 ParseTampered == ParseSingle \/ ParseDuplicated
 
 Next ==
@@ -710,6 +737,17 @@ PSpellingNeutral ==
 PCaseIsAnotherKey ==
     (TDone /\ out.sp = "case" /\ out.hm = "keep") =>
         (out.red /\ \A k \in Stripped(ver) : OtherCase(k) \notin out.topk)
+
+\* ... and so is a name that differs from a protected name only in case / by a folding letter: the hash fails ->
+\* redacted, the member gone, ID and signatures the original's; the hash matches -> the event as sent, the member in
+\* it, every genuine member as built (nothing the variant carries has replaced one)
+PVariantIsAnotherKey ==
+    (TDone /\ out.vk # "") =>
+        LET n == VariantName(out.vk, out.vs) IN
+        /\ (out.hm = "keep" => out.red /\ n \notin out.topk /\ out.idsame /\ out.valid = DOMAIN sigs
+                                /\ ev = RedactV(ver, Received(ver, built)))
+        /\ (out.hm = "rehash" => ~out.red /\ n \in out.topk
+                                  /\ DropTop(ev, {n, "hashes"}) = DropTop(Received(ver, built), {"hashes"}))
 
 \* C04, a member that occurs twice: what is handed out is ONE reading of the text - unredacted only if the content
 \* hash of that reading matches, otherwise its redacted form ((ii) and (iii); a refusal hands out nothing)
